@@ -2,7 +2,7 @@
     (timeout/timeout.go; models: model/THeap.v, model/TPool.v; proofs: proofs/C12_THeap.v,
     proofs/C12_TPool.v). *)
 From Coq Require Import List ZArith NArith Bool Lia Permutation.
-From GL Require Import model.THeap model.TPool proofs.C12_THeap proofs.C12_TPool.
+From GL Require Import model.THeap model.TPool proofs.C12_THeap proofs.C12_TPool proofs.C12_HeapOrder proofs.C12_PoolOrder.
 Import ListNotations.
 Open Scope Z_scope.
 
@@ -19,7 +19,7 @@ Theorem C12_idx_inv_unfolded : forall (ps : list prim) (h' : fheap),
   prim_run empty_heap ps = Some h' ->
   (forall k, (k < length (arr h'))%nat -> idx (get (hs h') (nth k (arr h') 0%N)) = Z.of_nat k) /\
   (forall x, ~ In x (arr h') -> idx (get (hs h') x) = -1).
-Proof. intros ps h' H. exact (idx_inv ps empty_heap h' idx_ok_empty H). Qed.
+Proof. exact idx_inv_unfolded. Qed.
 Print Assumptions C12_idx_inv_unfolded.
 
 (* non-vacuity: a sequence of raw calls that swaps, pushes and pops is accepted and ends
@@ -41,11 +41,7 @@ Theorem C12_remove_exact : forall (h : fheap) (x : fid),
   (forall y, fireT (get (hs (fst r)) y) = fireT (get (hs h) y) /\
              live (get (hs (fst r)) y) = live (get (hs h) y)) /\
   bad (fst r) = bad h /\ idx_ok (fst r) /\ idx (get (hs (fst r)) x) = -1.
-Proof.
-  intros h x Hok HI. destruct (remove_exact h x Hok HI) as [[A B C D E F] G].
-  cbv zeta. split; [exact G|]. split; [exact A|]. split; [exact B|]. split; [exact C|].
-  split; [exact D|]. split; [exact E|exact F].
-Qed.
+Proof. exact remove_exact_unfolded. Qed.
 Print Assumptions C12_remove_exact.
 
 Theorem C12_pop_head : forall (h : fheap),
@@ -54,20 +50,14 @@ Theorem C12_pop_head : forall (h : fheap),
   snd r = nth 0 (arr h) 0%N /\
   (forall y, In y (arr (fst r)) <-> In y (arr h) /\ y <> snd r) /\
   bad (fst r) = bad h /\ idx_ok (fst r) /\ idx (get (hs (fst r)) (snd r)) = -1.
-Proof.
-  intros h Hok Hne. destruct (pop_head h Hok Hne) as [[A B C D E F] G].
-  cbv zeta. rewrite G. split; [reflexivity|]. split; [exact A|]. split; [exact D|].
-  split; [exact E|exact F].
-Qed.
+Proof. exact pop_head_unfolded. Qed.
 Print Assumptions C12_pop_head.
 
 Theorem C12_push_exact : forall (h : fheap) (x : fid),
   idx_ok h -> ~ In x (arr h) ->
   let h' := heap_push h x in
   (forall y, In y (arr h') <-> In y (arr h) \/ y = x) /\ bad h' = bad h /\ idx_ok h'.
-Proof.
-  intros h x Hok Hx. destruct (push_exact h x Hok Hx) as [A B C D E]. cbv zeta. auto.
-Qed.
+Proof. exact push_exact_unfolded. Qed.
 Print Assumptions C12_push_exact.
 
 (** the slice is a permutation of the pending set *)
@@ -102,6 +92,33 @@ Example C12_ex_remove_middle :
   let r := heap_remove C12_ex_heap (idx (get (hs C12_ex_heap) 5%N)) in
   snd r = 5%N /\ dump (fst r) = [(4%N, 0); (2%N, 1); (7%N, 2); (1%N, 3); (3%N, 4); (6%N, 5)].
 Proof. vm_compute. split; reflexivity. Qed.
+
+(** * the slice is heap-ordered by fire time; the head is a minimum *)
+
+(** [heap_ordered h]: for every slot k > 0, fireT of slot (k-1)/2 <= fireT of slot k *)
+Theorem C12_heap_ordered_push : forall h x, heap_ordered h -> heap_ordered (heap_push h x).
+Proof. exact heap_ordered_push. Qed.
+Print Assumptions C12_heap_ordered_push.
+
+Theorem C12_heap_ordered_pop : forall h, arr h <> [] -> heap_ordered h -> heap_ordered (fst (heap_pop h)).
+Proof. exact heap_ordered_pop. Qed.
+Print Assumptions C12_heap_ordered_pop.
+
+Theorem C12_heap_ordered_remove : forall h i, in_range h i = true -> heap_ordered h ->
+  heap_ordered (fst (heap_remove h i)).
+Proof. exact heap_ordered_remove. Qed.
+Print Assumptions C12_heap_ordered_remove.
+
+Theorem C12_head_minimal : forall h x, heap_ordered h -> In x (arr h) ->
+  fireT (get (hs h) (aget (arr h) 0)) <= fireT (get (hs h) x).
+Proof. exact head_fire_minimal. Qed.
+Print Assumptions C12_head_minimal.
+
+(* non-vacuity: the example heap is heap-ordered (executable reading: no child is Less than its parent) *)
+Example C12_ex_heap_ordered :
+  forallb (fun k => negb (f_less C12_ex_heap (Z.of_nat k) (Z.quot (Z.of_nat k - 1) 2))) [1; 2; 3; 4; 5; 6]%nat = true.
+Proof. vm_compute. reflexivity. Qed.
+
 
 (** * The dispatcher: for every accepted trace of the LTS *)
 
@@ -156,7 +173,7 @@ Print Assumptions C12_cancel_precise.
     holds in every reachable state *)
 Theorem C12_pool_ok_reachable : forall (idle maxw wcap tokens0 : Z) (tr : list label) (p : pool),
   run (init_pool idle maxw wcap tokens0) tr = Some p -> pool_ok p.
-Proof. intros i m c k tr p H. eapply run_ok; [apply pool_ok_init|exact H]. Qed.
+Proof. exact pool_ok_reachable. Qed.
 Print Assumptions C12_pool_ok_reachable.
 
 (* non-vacuity: an accepted trace with three futures, a Cancel before firing (3), a Cancel
@@ -177,3 +194,16 @@ Example C12_ex_strict :
   trace_starts (init_pool 100 2 2 0) [LCall 1%N 10 0 true 0; LDecide 0 10; LWakeTimer 0 10; LDecide 0 10] = []
   /\ trace_starts (init_pool 100 2 2 0) [LCall 1%N 10 0 true 0; LDecide 0 11] = [(1%N, 11)].
 Proof. vm_compute. split; reflexivity. Qed.
+
+(** every reachable state has a heap-ordered slice, and the future whose callback is
+    started is one with the smallest fire time among the pending ones *)
+Theorem C12_reachable_heap_ordered : forall (idle maxw wcap tokens0 : Z) (tr : list label) (p : pool),
+  run (init_pool idle maxw wcap tokens0) tr = Some p -> heap_ordered (hp p).
+Proof. exact reachable_heap_ordered. Qed.
+Print Assumptions C12_reachable_heap_ordered.
+
+Theorem C12_started_is_minimal : forall (p : pool) (l : label) (x : fid),
+  pool_ok p -> heap_ordered (hp p) -> starts p l = Some x ->
+  forall y, In y (pending p) -> fireT (get (hs (hp p)) x) <= fireT (get (hs (hp p)) y).
+Proof. exact started_is_minimal. Qed.
+Print Assumptions C12_started_is_minimal.
